@@ -30,13 +30,14 @@ for pr in props:
 status = "\n".join(rows)
 
 srows = ["| property | change (file) | needs to manifest | verdict of the check |", "|---|---|---|---|"]
-for d in sorted(glob.glob(os.path.join(ROOT, "seeded", "C*")) + glob.glob(os.path.join(ROOT, "seeded", "C*", "second")) + glob.glob(os.path.join(ROOT, "seeded", "C*", "third"))):
+WAVES = {"second": " (2nd)", "third": " (3rd)", "fourth": " (4th)", "fifth": " (5th)"}
+for d in sorted(glob.glob(os.path.join(ROOT, "seeded", "C*")) + [x for w in WAVES for x in glob.glob(os.path.join(ROOT, "seeded", "C*", w))]):
     mf = os.path.join(d, "meta.json")
     if not os.path.exists(mf):
         continue
     m = json.load(open(mf))
     srows.append("| %s | %s (%s) | %s | %s |" % (
-        os.path.basename(d) if os.path.basename(d) not in ("second", "third") else os.path.basename(os.path.dirname(d)) + (" (2nd)" if os.path.basename(d) == "second" else " (3rd)"), str(m.get("what_it_breaks", "")).replace("|", "/").replace("\n", " ")[:260],
+        os.path.basename(d) if os.path.basename(d) not in WAVES else os.path.basename(os.path.dirname(d)) + WAVES[os.path.basename(d)], str(m.get("what_it_breaks", "")).replace("|", "/").replace("\n", " ")[:260],
         ", ".join(m.get("files_changed", []))[:80], str(m.get("needs_to_manifest", "")).replace("|", "/").replace("\n", " ")[:220],
         str(m.get("check_verdict", "not run yet")).replace("|", "/")))
 seeded = "\n".join(srows)
